@@ -17,6 +17,10 @@ fn sim_of(prop: &str) -> &'static str {
     match prop {
         "C14" | "C15" => "stream",
         "C02" | "C03" => "scan",
+        "C04" => "stripe",
+        "C16" => "gibbs",
+        "C19" => "dense",
+        "C06" => "mem",
         _ => {
             eprintln!("HARNESS: no simulator serves property {}", prop);
             std::process::exit(2);
@@ -33,6 +37,22 @@ macro_rules! with_sim {
             }
             "scan" => {
                 type $s = sims::scan::ScanSim;
+                $body
+            }
+            "stripe" => {
+                type $s = sims::stripe::StripeSim;
+                $body
+            }
+            "gibbs" => {
+                type $s = sims::gibbs::GibbsSim;
+                $body
+            }
+            "dense" => {
+                type $s = sims::dense::DenseSim;
+                $body
+            }
+            "mem" => {
+                type $s = sims::mem::MemSim;
                 $body
             }
             other => {
